@@ -17,7 +17,8 @@ RULE = (
     "identified by their index, all non-resident keys are interchangeable); successors = a hit on each resident key, one "
     "fresh key, and the empty prefix; the search stops when no new canonical state appears, i.e. the invariant is "
     "established for ALL histories at that size. (b) Hypothesis rule-based state machine through TermEncoder.encode_iri / "
-    "encode_literal / encode_namespace_declaration feeding the rows into a real Decoder, names 8..32, prefixes and datatypes "
+    "encode_literal / encode_namespace_declaration - single terms and whole statements of 2..4 IRIs under one begin_statement(), "
+    "where an under-sized table must be refused, never mis-encoded - feeding the rows into a real Decoder, names 8..32, prefixes and datatypes "
     "0..8, alphabets size+2. (c) long Hypothesis-drawn walks (up to 3000 uses) on sizes 150 / 4000 / 4096. Oracle after "
     "every step: the decoded string equals the intended string, every emitted id lies in [0,size], live entries <= size on "
     "both sides, the reader slot of every resident key holds that key. non-trivial = transition out of an evicting state "
@@ -260,6 +261,28 @@ def apply_op(enc, dec, op, sizes):
         if not 0 < msg.datatype <= sizes[2]:
             return f"datatype id {msg.datatype} outside (0,{sizes[2]}]", stats
         stats["entries"] = len(rows)
+    elif kind == "stmt":
+        # several IRIs under ONE begin_statement(): the writer must either refuse (table too small for the statement)
+        # or put ids on the wire that resolve to what it meant
+        from pyjelly.errors import JellyConformanceError
+
+        iris = [PFX[a % len(PFX)] + NAMES[b % len(NAMES)] for a, b in op[1]]
+        msgs = [jelly.RdfIri() for _ in iris]
+        enc.begin_statement()
+        rows = []
+        try:
+            for iri, msg in zip(iris, msgs):
+                rows.extend(enc.encode_iri(iri, msg))
+        except JellyConformanceError:
+            stats["refused"] = True
+            return None, stats
+        for r in rows:
+            dec.decode_row(getattr(r, r.WhichOneof("row")))
+        for iri, msg in zip(iris, msgs):
+            got = dec.decode_iri(msg)
+            if got != iri:
+                return f"statement {iris!r}: {iri!r} resolves to {got!r}", stats
+        stats["entries"] = len(rows)
     else:
         iri = PFX[op[1] % len(PFX)] + NAMES[op[2] % len(NAMES)]
         rows = encode_namespace_declaration("p", iri, enc)
@@ -294,6 +317,9 @@ def run_ops(case, acc=None):
             err, stats = f"{type(exc).__name__}: {exc}", {}
         if err:
             return Violation("C05:tables-out-of-sync:" + op[0], f"step {i} {op!r}, tables {sizes}: {err}", case)
+        if stats.get("refused"):
+            enc, dec = make_codec(sizes)  # a refused statement closes the stream: continue with a fresh pair
+            continue
         if stats.get("entries") and any(full):
             evicted = True
         elif evicted and not stats.get("entries"):
@@ -322,7 +348,7 @@ def machine_shard(spec, acc):
             self.ops = []
             self.err = None
 
-        @initialize(n=st.sampled_from([8, 9, 12, 16, 32]), p=st.integers(0, 8), d=st.integers(0, 8))
+        @initialize(n=st.sampled_from([8, 9, 12, 16, 32]), p=st.sampled_from([0, 1, 1, 2, 2, 3, 4, 5, 8]), d=st.integers(0, 8))
         def setup(self, n, p, d):
             self.sizes = [n, p, d]
             self.enc, self.dec = make_codec(self.sizes)
@@ -330,10 +356,13 @@ def machine_shard(spec, acc):
 
         def _do(self, op):
             self.ops.append(list(op))
+            st_ = {}
             try:
-                err, _ = apply_op(self.enc, self.dec, op, self.sizes)
+                err, st_ = apply_op(self.enc, self.dec, op, self.sizes)
             except Exception as exc:  # noqa: BLE001
                 err = f"{type(exc).__name__}: {exc}"
+            if st_.get("refused"):
+                self.enc, self.dec = make_codec(self.sizes)
             if err:
                 case = {"kind": "machine", "sizes": self.sizes, "ops": list(self.ops)}
                 v = Violation("C05:tables-out-of-sync:" + op[0], f"step {len(self.ops) - 1} {op!r}, tables {self.sizes}: {err}", case)
@@ -344,6 +373,10 @@ def machine_shard(spec, acc):
         @rule(p=st.integers(0, 12), n=st.integers(0, 36))
         def iri(self, p, n):
             self._do(("iri", p % self.alpha[1] if p != 12 else 12, n % self.alpha[0] if n != 36 else 36))
+
+        @rule(terms=st.lists(st.tuples(st.integers(0, 12), st.integers(0, 36)), min_size=2, max_size=4))
+        def statement(self, terms):
+            self._do(("stmt", [[p % self.alpha[1] if p != 12 else 12, n % self.alpha[0] if n != 36 else 36] for p, n in terms]))
 
         @rule(d=st.integers(0, 11))
         def literal(self, d):
